@@ -7,7 +7,9 @@ Every oracle returns a list of common.Failure with stable signatures "C0x/<what>
 How the evidence is read
   * An act executed iff its `act:<i>` user record exists; a unit "fails" iff one of its executed acts is an error log,
     a failed check, a raise (`raise:*` record, `raise:interrupted` included) — or the same inside the script of one of
-    its `thread` acts (the child unit U+["th",i]).
+    its `thread` acts (the child unit U+["th",i], run by the lcc.Thread) or of one of its `attachw` acts (the child
+    unit U+["blk",i], the body of a `with lcc.prepare_attachment(..)` block run by the same thread, nested inside
+    U's records).
   * A user record belongs to the task whose [start t w … finish t] span of worker w contains it (lcc.Thread children
     are mapped to their creating thread through obs["threads"][*]["parent"]); records of thread 0 outside any span
     are the pre_run fixtures.
@@ -28,6 +30,25 @@ TERMINAL = ("passed", "failed", "skipped", "disabled")
 
 def _k(x):
     return json.dumps(x, separators=(",", ":"))
+
+
+def unit_suffix(unit):
+    """the nesting markers of a unit id: [] for a fixture / hook / body unit itself, then one "th" (script of an
+    lcc.Thread) or "blk" (body of a `with prepare_attachment` block) per level"""
+    n = {"fx": 3, "hook": 4, "body": 2}.get(unit[0], len(unit))
+    return [unit[k] for k in range(n, len(unit), 2)]
+
+
+def is_block(unit):
+    return len(unit) >= 2 and unit[-2] == "blk"
+
+
+def in_side_thread(unit):
+    return "th" in unit_suffix(unit)
+
+
+def is_nested(unit):
+    return bool(unit_suffix(unit))
 
 
 class Exec:
@@ -83,27 +104,35 @@ class View:
             self.task_of_path[(t["kind"], tuple(t["path"]) if t["path"] is not None else None)] = ti
         # ---- unit executions
         self.execs = []
-        cur = {}
+        cur = {}           # thread -> stack of open executions (a `blk` unit is nested inside its parent's records)
         for i, r in enumerate(self.trace):
             if r[0] != "user":
                 continue
             _, th, unit, what, extra = r
+            stack = cur.setdefault(th, [])
             if what == "enter":
                 e = Exec()
                 e.unit, e.thread, e.enter, e.end, e.end_kind, e.acts, e.extra = unit, th, i, None, None, [], extra or {}
                 e.root = self.root_thread(th)
                 e.task = self.task_at(e.root, i)
                 e.children, e.key = [], _k(unit)
-                cur[th] = e
+                if is_block(unit):
+                    if stack and stack[-1].key == _k(unit[:-2]):
+                        stack[-1].children.append(e)
+                    stack.append(e)
+                else:
+                    cur[th] = [e]
                 self.execs.append(e)
             else:
-                e = cur.get(th)
+                e = stack[-1] if stack else None
                 if e is None or e.key != _k(unit):
                     continue      # reported by the recorder invariants
                 if what.startswith("act:"):
                     e.acts.append((i, int(what[4:])))
                 else:
                     e.end, e.end_kind = i, what
+                    if len(stack) > 1:
+                        stack.pop()
         by_unit_thread = {}
         for e in self.execs:
             if len(e.unit) >= 2 and e.unit[-2] == "th":
@@ -136,7 +165,7 @@ class View:
 
     def script_of(self, unit):
         base, path = unit, []
-        while len(base) >= 2 and base[-2] == "th":
+        while len(base) >= 2 and base[-2] in ("th", "blk"):
             path.insert(0, base[-1])
             base = base[:-2]
         sc = None
@@ -157,7 +186,7 @@ class View:
 
     def exec_failed(self, e, ignore_interrupted_threads=False):
         """did this execution record a failure (error log / failed check / raise), child threads included"""
-        is_child = len(e.unit) >= 2 and e.unit[-2] == "th"
+        is_child = in_side_thread(e.unit)
         if e.end_kind and e.end_kind.startswith("raise"):
             if not (ignore_interrupted_threads and is_child and e.end_kind == "raise:interrupted"):
                 return True
@@ -177,7 +206,8 @@ class View:
         if not fx:
             return False
         params = set(fx.get("params") or [])
-        for q in reversed([x for x in self.execs if x.thread == e.thread and x.enter < e.enter and x.task == e.task]):
+        for q in reversed([x for x in self.execs if x.thread == e.thread and x.enter < e.enter and x.task == e.task
+                           and not is_nested(x.unit)]):     # (blocks / threads of a fixture's script belong to that fixture's exec)
             if q.end is None or q.end > e.enter or q.unit[0] != "fx" or q.unit[2] != "setup" or len(q.unit) != 3:
                 break
             qfx = self.byprim.get(q.unit[1])
@@ -391,6 +421,48 @@ def c02(project, obs, view=None):
             out.append(F(sig, "%s is passed although %r recorded a failure" % (loc, failed_locs[loc])))
         if st == "failed" and not bad:
             out.append(F("C02/failed-without-failure/" + where, "%s is failed but no executed act of its units fails" % (loc,)))
+    # "passed" also says: it ran to completion.  A test reported passed entered its body once and left it normally,
+    # the hooks its suite defines around tests ran to their end, and every unit of user code started in it (fixture
+    # setups / teardowns, threads, attachment blocks) ended normally; a phase reported passed ran its hook to the end.
+    for loc, res in _all_results(rep):
+        if res["status"] != "passed":
+            continue
+        why = None
+        if loc[0] == "test":
+            info = v.tests.get(tuple(loc[1]))
+            if info is None:
+                continue
+            bodies = v.body_exec(loc[1])
+            if not bodies:
+                why = "its body was never entered"
+            elif bodies[0].end_kind != "exit":
+                why = "its body was left by %r" % (bodies[0].end_kind,)
+            else:
+                for h in ("setup_test", "teardown_test"):
+                    if info["s"][h] is None:
+                        continue
+                    hs = [e for e in v.execs if e.unit[0] == "hook" and len(e.unit) == 4 and e.unit[2] == h
+                          and tuple(e.unit[1]) == info["sp"] and e.unit[3] and tuple(e.unit[3]) == tuple(loc[1])]
+                    if not hs or hs[0].end_kind != "exit":
+                        why = "%s of its suite %s" % (h, "did not run" if not hs else "was left by %r" % (hs[0].end_kind,))
+                        break
+                ti = v.task_of_path.get(("test", tuple(loc[1])))
+                if why is None and ti is not None:
+                    for e in v.execs:
+                        if e.task == ti and e.end_kind != "exit":
+                            why = "%r did not run to its end (%r)" % (e, e.end_kind)
+                            break
+        elif loc[0] in ("setup", "teardown"):
+            # (the teardown phase only runs the teardowns of the setups that completed: a teardown_suite hook that did
+            # not run says nothing; one that ran must have ended normally)
+            s_ = v.suites.get(tuple(loc[1]))
+            hook = "setup_suite" if loc[0] == "setup" else "teardown_suite"
+            if s_ is not None and s_[0][hook] is not None:
+                hs = [e for e in v.execs if e.unit[0] == "hook" and len(e.unit) == 4 and e.unit[2] == hook and tuple(e.unit[1]) == tuple(loc[1])]
+                if (not hs and loc[0] == "setup") or (hs and hs[0].end_kind != "exit"):
+                    why = "%s %s" % (hook, "did not run" if not hs else "was left by %r" % (hs[0].end_kind,))
+        if why:
+            out.append(F("C02/passed-without-running-to-completion/" + loc[0], "%s is reported passed but %s" % (loc, why)))
     for loc, e in failed_locs.items():
         if loc[0] in ("pre_run", "none"):
             continue
@@ -666,7 +738,7 @@ def c03(project, obs, view=None, prefix="C03"):
     def body_after(tp, pos):
         return [b for b in v.body_exec(tp) if b.enter > pos]
     for e in v.execs:
-        if len(e.unit) >= 2 and e.unit[-2] == "th":
+        if is_nested(e.unit):
             continue
         is_setup = (e.unit[0] == "fx" and e.unit[2] == "setup") or (e.unit[0] == "hook" and e.unit[2] in ("setup_suite", "setup_test"))
         if not is_setup or v.clean(e) or e.end is None:
@@ -1067,7 +1139,10 @@ def c08(project, obs, view=None):
         return out
     aborts = []       # (kind, exec, raise position, visibility position)
     for e in v.execs:
-        if e.end_kind in ("raise:AbortTest", "raise:AbortSuite", "raise:AbortAllTests") and not (len(e.unit) >= 2 and e.unit[-2] == "th"):
+        # (an Abort* that ends an lcc.Thread is logged by `Thread.run` and aborts nothing: the statement speaks of the
+        # test's own thread; one that leaves a `with prepare_attachment` block also leaves the unit around it, which
+        # carries the same record)
+        if e.end_kind in ("raise:AbortTest", "raise:AbortSuite", "raise:AbortAllTests") and not is_nested(e.unit):
             if e.task is None:
                 continue
             aborts.append((e.end_kind[6:], e, e.end, _visible_after(v, e.thread, e.task, e.end)))
@@ -1218,6 +1293,16 @@ def c11(project, obs, view=None):
     for f in c03(project, obs, v, prefix="C11/teardowns"):
         if "/teardown-" in f.signature or "/enclosing-scope" in f.signature:
             out.append(f)
+    # ... and they run to their end: without a keyboard interrupt no logging call of user code raises by itself, so a
+    # teardown (generator fixture after its yield, teardown_suite / teardown_test hook) that was left by such a call
+    # was started but did not do its job
+    if v.interrupt_at is None:
+        for e in v.execs:
+            is_td = (e.unit[0] == "fx" and e.unit[2] == "teardown") or (e.unit[0] == "hook" and e.unit[2] in ("teardown_suite", "teardown_test"))
+            if is_td and not is_nested(e.unit) and e.end_kind == "raise:interrupted":
+                scope = v.byprim[e.unit[1]]["scope"] if e.unit[0] == "fx" else e.unit[2]
+                out.append(F("C11/teardowns/teardown-cut-short/" + scope,
+                             "%r was left by a logging call that raised although no keyboard interrupt was delivered" % (e,)))
     return _dedupe(out)
 
 
